@@ -501,4 +501,156 @@ theorem position_lipschitz_degenerate_float32 (κ : ℚ) (hκ : 0 ≤ κ) (path 
   have hm := mul_le_mul_of_nonneg_right (sub_le_sub_left (hs0 hi d0 hd0) (toRat d')) hκ1
   exact ⟨p, p', he, he', by linarith, by linarith⟩
 
+/-! ## (3) through `progress_to_dist`: `position_at` -/
+
+theorem positionAt_eq (path : List (Pos Float32)) (lengths : List Float) (q : Float) :
+    positionAt path lengths q =
+      interpolateVertices path lengths (idxOfDist lengths (progressToDist lengths q)) (progressToDist lengths q) := rfl
+
+/-- **C19 on IEEE floats: `position_at` never moves farther than the arc length.** Curve whose lengths start at a zero
+(`lengths[0] <= 0 <= lengths[0]`), weakly sorted numbers with a finite last length, vertices finite and bounded by `2¹⁹`,
+`ChordBooked κ`; two progress values `q <= q'` (IEEE order: both numbers; any numbers, the code clamps them to `[0, 1]`). With
+`d = progress_to_dist q`, `d' = progress_to_dist q'` (`= clamp(·, 0, 1) ⊗ total`): `0 <= d <= d' <= total`, and when the
+bracket of `d` is non-degenerate (needed only if `0 < i < i'`) the two positions differ per coordinate by at most
+`(d' − d)(1 + κ) + 2·interpBound`. -/
+theorem positionAt_lipschitz_float32 (κ : ℚ) (hκ : 0 ≤ κ) (path : List (Pos Float32)) (lengths : List Float)
+    (q q' a b : Float) (hqq : Scalar.le q q' = true)
+    (hlen : path.length = lengths.length) (hs : Sorted lengths) (hbd : ∀ p ∈ path, C16.Bounded19 p)
+    (hfp : ∀ p ∈ path, C16.FinitePos p)
+    (ha : lengths[0]? = some a) (hb : lengths.getLast? = some b)
+    (ha0 : Scalar.le a (0 : Float) = true) (ha1 : Scalar.le (0 : Float) a = true) (hbf : FX.Finite64 b)
+    (hch : ChordBooked κ path lengths)
+    (hnd : 0 < idxOfDist lengths (progressToDist lengths q) →
+      idxOfDist lengths (progressToDist lengths q) < idxOfDist lengths (progressToDist lengths q') →
+      ∀ d0 d1, lengths[idxOfDist lengths (progressToDist lengths q) - 1]? = some d0 →
+        lengths[idxOfDist lengths (progressToDist lengths q)]? = some d1 →
+        Scalar.le (Scalar.abs (d0 - d1)) (Scalar.eps : Float) = false) :
+    Scalar.le (0 : Float) (progressToDist lengths q) = true ∧
+    Scalar.le (progressToDist lengths q) (progressToDist lengths q') = true ∧
+    Scalar.le (progressToDist lengths q') b = true ∧
+    ∃ (p p' : Pos Float32), positionAt path lengths q = .ok p ∧ positionAt path lengths q' = .ok p' ∧
+      |toRat32 p.x - toRat32 p'.x| ≤
+        (toRat (progressToDist lengths q') - toRat (progressToDist lengths q)) * (1 + κ) + 2 * interpBound ∧
+      |toRat32 p.y - toRat32 p'.y| ≤
+        (toRat (progressToDist lengths q') - toRat (progressToDist lengths q)) * (1 + κ) + 2 * interpBound := by
+  obtain ⟨n1, n2⟩ := FMO.not_nan_of_le hqq
+  have hb0 : Scalar.le (0 : Float) b = true := by
+    have hb' : lengths[lengths.length - 1]? = some b := by
+      rw [List.getLast?_eq_getElem?] at hb; exact hb
+    exact FMO.le_trans _ _ _ ha1 (hs 0 (lengths.length - 1) a b (Nat.zero_le _) ha hb')
+  have hdist : dist lengths = b := by unfold dist; rw [hb]
+  obtain ⟨h0, _, _⟩ := progress_to_dist_bounds_float lengths q n1 (by rw [hdist]; exact hbf) (by rw [hdist]; exact hb0)
+  obtain ⟨_, h1', _⟩ := progress_to_dist_bounds_float lengths q' n2 (by rw [hdist]; exact hbf) (by rw [hdist]; exact hb0)
+  rw [hdist] at h1'
+  have hm := progress_to_dist_mono_float lengths q q' hqq (by rw [hdist]; exact hbf) (by rw [hdist]; exact hb0)
+  refine ⟨h0, hm, h1', ?_⟩
+  rw [positionAt_eq, positionAt_eq]
+  exact (position_lipschitz_float32 κ hκ path lengths _ _ a b hlen hs hbd hfp ha hb ha1 hbf
+    (FMO.le_trans _ _ _ ha0 h0) hm h1' hch hnd).2
+
+/-! ## non-vacuity: the demo curve `(100,200) → (107,224) → (100,200)`, lengths `[0, 25, 50]`, kernel-evaluated -/
+
+section Examples
+open Rosu.C16
+
+theorem toRat_50 : toRat (50 : Float) = 50 := by
+  have h : (50 : Float).toModel.unpack = .finite .positive 7036874417766400 (-47) (by decide) := by
+    have : (50 : Float) = Float.ofBits 0x4049000000000000 := by decide +kernel
+    rw [this, FM.float_unpack_ofBits _ (by decide)]; rfl
+  rw [toRat_of_unpack h]; norm_num [sgnQ]
+
+theorem toRat_30 : toRat (30 : Float) = 30 := by
+  have h : (30 : Float).toModel.unpack = .finite .positive 8444249301319680 (-48) (by decide) := by
+    have : (30 : Float) = Float.ofBits 0x403E000000000000 := by decide +kernel
+    rw [this, FM.float_unpack_ofBits _ (by decide)]; rfl
+  rw [toRat_of_unpack h]; norm_num [sgnQ]
+
+/-- **`ChordBooked 2⁻²⁰` holds on the demo curve** (chords `(7, 24)`, booked `25` each). -/
+theorem demo_chordBooked : ChordBooked ((2 : ℚ) ^ (-20 : Int)) demoPath demoLens := by
+  intro k p p' x y hp hp' hx hy
+  have a1 : toRat32 demoPP.x = 100 := demo_100
+  have a2 : toRat32 demoPP.y = 200 := demo_200
+  have a3 : toRat32 demoPE.x = 107 := demo_107
+  have a4 : toRat32 demoPE.y = 224 := demo_224
+  rcases three_cases hp with ⟨rfl, rfl⟩ | ⟨rfl, rfl⟩ | ⟨rfl, rfl⟩ <;>
+  rcases three_cases hp' with ⟨h1, rfl⟩ | ⟨h1, rfl⟩ | ⟨h1, rfl⟩ <;>
+  rcases three_cases hx with ⟨h2, rfl⟩ | ⟨h2, rfl⟩ | ⟨h2, rfl⟩ <;>
+  rcases three_cases hy with ⟨h3, rfl⟩ | ⟨h3, rfl⟩ | ⟨h3, rfl⟩ <;>
+  first
+    | omega
+    | (simp only [a1, a2, a3, a4, toRat_zero, toRat_25, toRat_50]; norm_num)
+
+/-- `vertex_chord_sum_float32` on the demo, `i = 0`, `j = 2` (back at the start: `0 ≤ 50 (1 + 2⁻²⁰)`). -/
+example : |toRat32 demoPP.x - toRat32 demoPP.x| ≤ (toRat (50 : Float) - toRat (0 : Float)) * (1 + (2 : ℚ) ^ (-20 : Int)) :=
+  (vertex_chord_sum_float32 _ demoPath demoLens demo_chordBooked 0 2 (by omega) demoPP demoPP 0 50 rfl rfl rfl rfl).1
+
+/-- **every hypothesis of `position_lipschitz_float32` holds on the demo curve for `d = 10` (bracket `1`) and `d' = 30`
+(bracket `2`)** — two DIFFERENT segments, the vertex `(107, 224)` in between —, checked by the kernel; the two positions
+(`≈ (102.8, 209.6)` and `≈ (105.6, 219.2)`) differ per coordinate by at most `20 (1 + 2⁻²⁰) + 2·interpBound`. -/
+example : idxOfDist demoLens 10 = 1 ∧ idxOfDist demoLens 30 = 2 ∧
+    ∃ (p p' : Pos Float32),
+      interpolateVertices demoPath demoLens (idxOfDist demoLens 10) 10 = .ok p ∧
+      interpolateVertices demoPath demoLens (idxOfDist demoLens 30) 30 = .ok p' ∧
+      |toRat32 p.x - toRat32 p'.x| ≤ (30 - 10) * (1 + (2 : ℚ) ^ (-20 : Int)) + 2 * interpBound ∧
+      |toRat32 p.y - toRat32 p'.y| ≤ (30 - 10) * (1 + (2 : ℚ) ^ (-20 : Int)) + 2 * interpBound := by
+  have h := (position_lipschitz_float32 ((2 : ℚ) ^ (-20 : Int)) (by positivity) demoPath demoLens 10 30 0 50 rfl demo_sorted
+    demo_bounded demo_finitePos rfl rfl (by decide +kernel) (by decide +kernel) (by decide +kernel) (by decide +kernel)
+    (by decide +kernel) demo_chordBooked (by
+      intro _ _ d0 d1 h0 h1
+      rw [demo_idx.1] at h0 h1
+      cases h0; cases h1
+      decide +kernel)).2
+  rw [toRat_10, toRat_30] at h
+  exact ⟨demo_idx.1, demo_idx.2.1, h⟩
+
+/-- the two positions of that example, evaluated: `Δx = 105.6 − 102.8 − 2⁻¹⁷·0.8…`, well inside the bound (the bound is about
+arc length, the curve turns back at `(107, 224)`). -/
+example : (interpPos demoPP demoPE (10 : Float) 0 25).x = Float32.ofBits 0x42CD999A ∧
+    (interpPos demoPE demoPP (30 : Float) 25 50).x = Float32.ofBits 0x42D33333 :=
+  ⟨demo_interp_bits.1, demo_interp_bits30.1⟩
+
+/-- `positionAt_lipschitz_float32` on the demo curve for the progress values `0.2 <= 0.6` (`d = 10`, bracket `1`). -/
+example : ∃ (p p' : Pos Float32), positionAt demoPath demoLens 0.2 = .ok p ∧ positionAt demoPath demoLens 0.6 = .ok p' ∧
+    |toRat32 p.x - toRat32 p'.x| ≤
+      (toRat (progressToDist demoLens 0.6) - toRat (progressToDist demoLens 0.2)) * (1 + (2 : ℚ) ^ (-20 : Int)) +
+        2 * interpBound ∧
+    |toRat32 p.y - toRat32 p'.y| ≤
+      (toRat (progressToDist demoLens 0.6) - toRat (progressToDist demoLens 0.2)) * (1 + (2 : ℚ) ^ (-20 : Int)) +
+        2 * interpBound :=
+  (positionAt_lipschitz_float32 ((2 : ℚ) ^ (-20 : Int)) (by positivity) demoPath demoLens 0.2 0.6 0 50 (by decide +kernel)
+    rfl demo_sorted demo_bounded demo_finitePos rfl rfl (by decide +kernel) (by decide +kernel) (by decide +kernel)
+    demo_chordBooked (by
+      intro _ _ d0 d1 h0 h1
+      rw [demo_progress, demo_idx.1] at h0 h1
+      cases h0; cases h1
+      decide +kernel)).2.2.2
+
+/-- the demo lengths ARE the natural ones: `natLens 0 demoPath = [0, 25, 50]`. -/
+theorem demo_natLens : natLens (0 : Float) demoPath = demoLens := by decide +kernel
+
+theorem demo_len_back : Pos.length Float (demoPP - demoPE) = Float32.ofBits 0x41C80000 := by decide +kernel
+
+/-- **the hypotheses of `chordBooked_natural_zero` hold on the demo curve** (side conditions of `chord_le_booked_float` for both
+segments, evaluated by the kernel), so `ChordBooked 2⁻²⁰` is DERIVED for its natural lengths. -/
+example : ChordBooked ((2 : ℚ) ^ (-20 : Int)) demoPath (natLens (0 : Float) demoPath) := by
+  have a1 : toRat32 demoPP.x = 100 := demo_100
+  have a2 : toRat32 demoPP.y = 200 := demo_200
+  have a3 : toRat32 demoPE.x = 107 := demo_107
+  have a4 : toRat32 demoPE.y = 224 := demo_224
+  refine chordBooked_natural_zero demoPath ?_ ?_
+  · intro a b ha hb
+    cases ha; cases hb
+    exact ⟨by decide +kernel, by decide +kernel, by decide +kernel, by rw [a1, a2, a3, a4]; norm_num, by decide +kernel⟩
+  · intro k a b lk hk ha hb hl
+    rw [demo_natLens] at hl
+    rcases three_cases ha with ⟨rfl, rfl⟩ | ⟨rfl, rfl⟩ | ⟨rfl, rfl⟩ <;>
+    rcases three_cases hb with ⟨h1, rfl⟩ | ⟨h1, rfl⟩ | ⟨h1, rfl⟩ <;>
+    rcases three_cases hl with ⟨h2, rfl⟩ | ⟨h2, rfl⟩ | ⟨h2, rfl⟩ <;>
+    first
+      | omega
+      | exact ⟨by decide +kernel, by decide +kernel, by decide +kernel, by rw [a1, a2, a3, a4]; norm_num, by decide +kernel,
+          by rw [toRat_25]; norm_num, by rw [toRat_25, demo_len_back, demo_25]; norm_num⟩
+
+end Examples
+
 end Rosu.C19
